@@ -58,7 +58,7 @@ func init() {
 		Run:          Run,
 		MaxSteps:     60000,
 		QuickRuns:    4000,
-		ThoroughSecs: 600,
+		ThoroughSecs: 400,
 		Rule: "one run = one generated router configuration (routes, criteria, port representations, domain/prefix set files, resolvers, " +
 			"defaults) and 8..24 generated requests aimed at satisfying or narrowly missing one of its routes, executed under one seeded schedule; " +
 			"non-trivial = at least one route configured AND the requests of the run were decided at two or more different places of the route " +
